@@ -1569,7 +1569,8 @@ class cmap_format_14(CmapSubtable):
                 defRecs = []
                 for defEntry in defList:
                     cnt += 1
-                    if (lastUV + cnt) != defEntry:
+                    if (lastUV + cnt) != defEntry or cnt > 255:
+                        # additionalCount is a uint8: a range holds at most 256 values
                         rec = struct.pack(">3sB", cvtFromUVS(lastUV), cnt - 1)
                         lastUV = defEntry
                         defRecs.append(rec)
